@@ -142,7 +142,8 @@ def class_unions():
 
 
 def dict_unions():
-    d = st.tuples(st.sampled_from([["atom", "str"], ["atom", "int"], ["Any"]]), st.sampled_from(atom_specs[:4] + [["Any"], ["List", ["atom", "int"]]])).map(
+    # (key types also in a subclass relation: bool/int, D1/Base - different key types all the same)
+    d = st.tuples(st.sampled_from([["atom", "str"], ["atom", "int"], ["Any"], ["atom", "bool"], ["atom", "int"], ["cls", "D1"], ["cls", "Base"]]), st.sampled_from(atom_specs[:4] + [["Any"], ["List", ["atom", "int"]]])).map(
         lambda p: ["Dict", p[0], p[1]])
     return st.lists(d, min_size=2, max_size=4, unique_by=repr).map(lambda l: ["Union", l])
 
